@@ -385,6 +385,21 @@ def coq_props(ctx, pid=None, deps=None, timeout=900):
     else:
         ctx.cov["trusted_base"].append("Print Assumptions for %s theorems: closed under the global context (or primitive int/float only)" % pid)
     ctx.cov.setdefault("theorems", []).extend(thms)
+    if ctx.thorough and res["ok"]:
+        # independent re-check of the compiled files and of everything they depend on
+        rc, out = sh("timeout 1500 coqchk -silent -o -Q . Verif Verif.%s.Props 2>&1" % pid, cwd=COQ, timeout=1600)
+        tail = out[out.find("CONTEXT SUMMARY"):] if "CONTEXT SUMMARY" in out else out[-1500:]
+        ctx.cov.setdefault("coqchk", {})[pid] = tail.strip()[:3000]
+        bad = ""
+        for sect in ("type-in-type", "unsafe (co)fixpoints", "positivity is assumed"):
+            m = re.search(re.escape(sect) + r":\s*(\S.*)", tail)
+            if m and "<none>" not in m.group(1):
+                bad += "%s: %s; " % (sect, m.group(1))
+        if rc != 0 or bad:
+            res["ok"] = False
+            res["failing"] = "coqchk: rc=%d %s" % (rc, bad)
+        else:
+            ctx.cov["trusted_base"].append("coqchk -o re-checked Verif.%s.Props and its dependencies (axioms listed under coverage.coqchk)" % pid)
     return res
 
 
